@@ -69,6 +69,8 @@ def attributes_x(ck, g, tier):
         it = Item(kind, "S", shape="named")
         if kind == "struct":
             it.fields = [Field("a", "i32"), Field("b", "u8")]
+            if g.chance(0.35):
+                it.fields.append(Field("p", "P", [Instr("parent", "parent", container=None, fields=None)]))   # post-init skeletons
         else:
             it.variants = [Variant("V0"), Variant("V1", "tuple", [Field(None, "i32")])]
         taken = set()
@@ -93,7 +95,7 @@ def attributes_x(ck, g, tier):
             if g.chance(0.3):
                 ps.append(("vars", [("v", "1")]))
             g.r.shuffle(ps)
-            if g.chance(0.2):
+            if g.chance(0.2) and not any(f.name == "p" for f in it.fields):
                 ps.append(("return", "k(@)"))
             it.attrs.append(Instr(nm, "trait", ty=cp, hint=None, err="E" if fal else None, params=ps))
             plan.append((nm, cp, fal, marks))
